@@ -206,14 +206,6 @@ mut("c02-smsm-unvisited", "C02", FS,
     'new_select = function_call("SelectMany", [captured_body, self.visit(func_g)])',
     'new_select = function_call("SelectMany", [captured_body, func_g])',
     "SelectMany-of-SelectMany splices the lambda unvisited (reverts the F6 repair)")
-mut("c02-counter-per-instance", "C02", FS,
-    '''    def __init__(self):
-        self._arg_stack = argument_stack()''',
-    '''    def __init__(self):
-        global argument_var_counter
-        argument_var_counter = 0
-        self._arg_stack = argument_stack()''',
-    "fresh-name counter restarts at 0 for every simplify_chained_calls instance")
 mut("c02-where-or", "C02", FS,
     "arg, ast.BoolOp(ast.And(), [lambda_call(arg, func_f), lambda_call(arg, func_g)])",
     "arg, ast.BoolOp(ast.And(), [lambda_call(arg, func_g), lambda_call(arg, func_f)])",
@@ -235,29 +227,31 @@ mut("c02-no-shadow", "C02", FS,
     "",
     "a nested lambda's own parameters no longer hide the outer substitution (other half of the F9 repair)")
 # ---- C20 -------------------------------------------------------------------------------------
-mut("c20-attributes", "C20", AH,
-    "b.extend(map(ord, ast.dump(a)))", "b.extend(map(ord, ast.dump(a, include_attributes=True)))",
+H = '    return hashlib.md5(ast.dump(a).encode("utf-8")).hexdigest()'
+mut("c20-attributes", "C20", AH, H,
+    '    return hashlib.md5(ast.dump(a, include_attributes=True).encode("utf-8")).hexdigest()',
     "hash includes source positions")
-mut("c20-pyhash", "C20", AH,
-    "    return hashlib.md5(b).hexdigest()",
-    "    return hashlib.md5(str(hash(bytes(b))).encode()).hexdigest()",
+mut("c20-pyhash", "C20", AH, H,
+    '    return hashlib.md5(str(hash(ast.dump(a))).encode()).hexdigest()',
     "hash goes through Python's salted hash(): differs between processes")
-mut("c20-qmd", "C20", AH,
-    "b.extend(map(ord, ast.dump(a)))",
-    "b.extend(map(ord, ast.dump(a) + repr(sorted(getattr(a, '_q_metadata', {}).items()))))",
+mut("c20-qmd", "C20", AH, H,
+    '    return hashlib.md5((ast.dump(a) + repr(sorted(getattr(a, "_q_metadata", {}).items()))).encode("utf-8")).hexdigest()',
     "query metadata of the top node is mixed into the hash")
-mut("c20-day-salt", "C20", AH,
-    "b.extend(map(ord, ast.dump(a)))",
-    "import time\n\n    b.extend(map(ord, ast.dump(a) + str(int(time.time() // 86400 // 365))))",
+mut("c20-day-salt", "C20", AH, H,
+    '    import time\n\n    return hashlib.md5((ast.dump(a) + str(int(time.time() // 86400 // 365))).encode("utf-8")).hexdigest()',
     "hash salted with the current year")
-mut("c20-constant-type", "C20", AH,
-    "b.extend(map(ord, ast.dump(a)))",
-    "b.extend(map(ord, ast.dump(a).replace('value=1.0', 'value=1').replace('value=2.0', 'value=2')))",
+mut("c20-constant-type", "C20", AH, H,
+    '    return hashlib.md5(ast.dump(a).replace("value=1.0", "value=1").replace("value=2.0", "value=2").encode("utf-8")).hexdigest()',
     "1.0 and 1 hash alike (constant type ignored)")
-mut("c20-id", "C20", AH,
-    "b.extend(map(ord, ast.dump(a)))",
-    "b.extend(map(ord, ast.dump(a) + (str(id(a) % 3) if hasattr(a, '_q_metadata') else '')))",
+mut("c20-id", "C20", AH, H,
+    '    return hashlib.md5((ast.dump(a) + (str(id(a) % 3) if hasattr(a, "_q_metadata") else "")).encode("utf-8")).hexdigest()',
     "object address of an annotated top node leaks into the hash")
+mut("c20-latin1", "C20", AH, H,
+    '    return hashlib.md5(ast.dump(a).encode("latin-1", errors="replace")).hexdigest()',
+    "characters above U+00FF are all replaced by '?' before hashing (different names collide)")
+mut("c20-ascii-ignore", "C20", AH, H,
+    '    return hashlib.md5(ast.dump(a).encode("ascii", errors="ignore")).hexdigest()',
+    "non-ASCII characters are dropped before hashing")
 
 
 PRELUDE = {UA: ("def parse_as_ast(", "_parsed_cache: Dict[Any, Any] = {}\n\n\ndef parse_as_ast(")}
